@@ -449,6 +449,87 @@ func instantiate(ce *Eff, m map[string]*Term, callee string, ev *Event) *Eff {
 // known functions after substitution.
 var dynResolver func(*Term) *Term
 
+// elemResolver is installed by the program loader: the element of a collection returned by a collecting scan.
+var elemResolver func(*Term) *Term
+
+// resolveElem: x is a call of a module function that gathers a slice from a store scan (one append per scanned
+// record, starting from an empty slice): the element of that slice is the appended expression on the call's arguments.
+func (p *Prog) resolveElem(x *Term) *Term {
+	x = stripConv(x)
+	if x == nil || x.Op == "" {
+		return nil
+	}
+	g := p.FuncNamed(x.Op)
+	if g == nil || !g.isHandWritten() || g.Body == nil || g.Decl == nil || p.pathsBusy[g] {
+		return nil
+	}
+	e := p.elemSummary(g, 0)
+	if e == nil {
+		return nil
+	}
+	return e.Subst(argMap(g, x))
+}
+
+// elemSummary: the expression a collecting function appends per scanned record, over its parameters.
+func (p *Prog) elemSummary(g *Func, depth int) *Term {
+	if v, ok := p.elemMemo[g]; ok {
+		return v
+	}
+	if p.elemMemo == nil {
+		p.elemMemo = map[*Func]*Term{}
+	}
+	p.elemMemo[g] = nil
+	if depth > 3 || len(g.Res) != 1 || p.pathsBusy[g] {
+		return nil
+	}
+	if _, isSlice := g.Res[0].Type().Underlying().(*types.Slice); !isSlice || isByteSlice(g.Res[0].Type()) {
+		return nil
+	}
+	empty := func(t *Term) bool {
+		t = stripConv(t)
+		return t.IsAt("zero") || t.IsAt("#nil") || (t.Op == "lit" && len(t.A) == 1) || (t.Op == "make" && len(t.A) >= 2 && t.A[1].IsAt("#0"))
+	}
+	var common *Term
+	scans := false
+	for _, pa := range p.PathsOf(g) {
+		if !pa.OK() || len(pa.Ret) != 1 {
+			return nil
+		}
+		r := stripConv(pa.Ret[0])
+		var e *Term
+		switch {
+		case empty(r):
+			continue
+		case r.Op == "append" && len(r.A) == 2 && empty(r.A[0]):
+			e = r.A[1]
+			if e.ContainsOp("sdk.KVStorePrefixIterator") || e.ContainsOp("sdk.KVStoreReversePrefixIterator") {
+				scans = true
+			}
+		default:
+			// a function that forwards to a collecting function
+			if h := p.FuncNamed(r.Op); h != nil && h != g && h.isHandWritten() && h.Body != nil {
+				if he := p.elemSummary(h, depth+1); he != nil {
+					e = he.Subst(argMap(h, r))
+					scans = true
+				}
+			}
+		}
+		if e == nil {
+			return nil
+		}
+		if common == nil {
+			common = e
+		} else if !common.Eq(e) {
+			return nil
+		}
+	}
+	if common == nil || !scans {
+		return nil
+	}
+	p.elemMemo[g] = common
+	return common
+}
+
 func resolveDynTerm(t *Term) *Term {
 	if t == nil || dynResolver == nil || !t.ContainsOp("dyn") {
 		return t
